@@ -401,8 +401,8 @@ pub fn gen_doc_path(r: &mut Rng, v: &Value) -> String {
         let mut cur = v;
         for _ in 0..r.below(4) {
             match r.below(10) {
-                0 => { t.push_str(".*"); if let Value::Object(o) = cur { if let Some(x) = o.values().next() { cur = x; } } }
-                1 | 2 => { t.push_str("[*]"); if let Value::Array(a) = cur { if let Some(x) = a.first() { cur = x; } } }
+                0 => { t.push_str(".*"); if let Value::Object(o) = cur { if !o.is_empty() { let k = r.below(o.len() as u64) as usize; if let Some(x) = o.values().nth(k) { cur = x; } } } }
+                1 | 2 => { t.push_str("[*]"); if let Value::Array(a) = cur { if !a.is_empty() { cur = &a[r.below(a.len() as u64) as usize]; } } }
                 3 if depth < 2 => {
                     let lit = if lits.is_empty() { "1".to_string() } else { r.pick(lits).clone() };
                     let op = *r.pick(&["==", "!=", "<", "<=", ">", ">="]);
@@ -422,7 +422,7 @@ pub fn gen_doc_path(r: &mut Rng, v: &Value) -> String {
                         let k = 1 + r.below(2);
                         let idx: Vec<String> = (0..k).map(|_| one(r)).collect();
                         t.push_str(&format!("[{}]", idx.join(", ")));
-                        if let Some(x) = a.first() { cur = x; }
+                        if !a.is_empty() { cur = &a[r.below(a.len() as u64) as usize]; }
                     }
                     Value::Object(o) => {
                         if o.is_empty() || r.chance(1, 6) { t.push_str(".zzz"); } else {
